@@ -502,7 +502,8 @@ class Array:
         if res.shape != data_flat.shape:
             raise ValueError(f'Incompatible shapes: legcharges {res.shape!s} vs flat {data_flat.shape!s} ')
         if qtotal is None:
-            res.qtotal = qtotal = detect_qtotal(data_flat, legcharges, cutoff)
+            res.qtotal = detect_qtotal(data_flat, legcharges, cutoff)
+        qtotal = res.qtotal  # valid charges: block charges are compared with it below
         data = []
         qdata = []
         for qindices in res._iter_all_blocks():
